@@ -361,6 +361,95 @@ char *__wrap_if_indextoname(unsigned int ifindex, char *ifname)
   return NULL;
 }
 
+/* Interfaces only the application's own socket functions know (ares_set_socket_functions_ex):
+ * the operating system (the wraps above) has never heard of them. */
+static int cfg_private_ifaces; /* the channel under test has such functions installed */
+static unsigned int cfg_if_index(const char *ifname)
+{
+  if (cfg_private_ifaces && ifname != NULL) {
+    if (!strcmp(ifname, "vpn0")) {
+      return 40;
+    }
+    if (!strcmp(ifname, "vpn1")) {
+      return 41;
+    }
+  }
+  return __wrap_if_nametoindex(ifname);
+}
+static unsigned int cfg_app_if_nametoindex(const char *ifname, void *ud)
+{
+  (void)ud;
+  if (ifname != NULL && !strcmp(ifname, "vpn0")) {
+    return 40;
+  }
+  if (ifname != NULL && !strcmp(ifname, "vpn1")) {
+    return 41;
+  }
+  return __wrap_if_nametoindex(ifname);
+}
+static const char *cfg_app_if_indextoname(unsigned int ifindex, char *buf, size_t buflen, void *ud)
+{
+  (void)ud;
+  if (buflen < 16) {
+    return NULL;
+  }
+  if (ifindex == 40 || ifindex == 41) {
+    snprintf(buf, buflen, "vpn%u", ifindex - 40);
+    return buf;
+  }
+  return __wrap_if_indextoname(ifindex, buf);
+}
+static ares_socket_t cfg_app_socket(int d, int t, int pr, void *ud)
+{
+  (void)d; (void)t; (void)pr; (void)ud;
+  errno = ENOSYS;
+  return ARES_SOCKET_BAD;
+}
+static int cfg_app_close(ares_socket_t s, void *ud)
+{
+  (void)s; (void)ud;
+  return 0;
+}
+static int cfg_app_connect(ares_socket_t s, const struct sockaddr *a, ares_socklen_t l, unsigned int f, void *ud)
+{
+  (void)s; (void)a; (void)l; (void)f; (void)ud;
+  errno = ENOSYS;
+  return -1;
+}
+static ares_ssize_t cfg_app_recvfrom(ares_socket_t s, void *b, size_t l, int f, struct sockaddr *a, ares_socklen_t *al, void *ud)
+{
+  (void)s; (void)b; (void)l; (void)f; (void)a; (void)al; (void)ud;
+  errno = ENOSYS;
+  return -1;
+}
+static ares_ssize_t cfg_app_sendto(ares_socket_t s, const void *b, size_t l, int f, const struct sockaddr *a, ares_socklen_t al, void *ud)
+{
+  (void)s; (void)b; (void)l; (void)f; (void)a; (void)al; (void)ud;
+  errno = ENOSYS;
+  return -1;
+}
+static int cfg_app_setsockopt(ares_socket_t s, ares_socket_opt_t o, const void *v, ares_socklen_t l, void *ud)
+{
+  (void)s; (void)o; (void)v; (void)l; (void)ud;
+  return 0;
+}
+/* incomplete=1: a mandatory member is missing, the call must be rejected and change nothing */
+static int cfg_install_private_ifaces(ares_channel_t *ch, int incomplete)
+{
+  struct ares_socket_functions_ex sf;
+  memset(&sf, 0, sizeof(sf));
+  sf.version         = 1;
+  sf.asocket         = cfg_app_socket;
+  sf.asetsockopt     = incomplete ? NULL : cfg_app_setsockopt;
+  sf.aclose          = cfg_app_close;
+  sf.aconnect        = cfg_app_connect;
+  sf.arecvfrom       = cfg_app_recvfrom;
+  sf.asendto         = cfg_app_sendto;
+  sf.aif_nametoindex = cfg_app_if_nametoindex;
+  sf.aif_indextoname = cfg_app_if_indextoname;
+  return (int)ares_set_socket_functions_ex(ch, &sf, NULL);
+}
+
 static uint64_t cfg_n_socket;
 int             __wrap_socket(int domain, int type, int protocol)
 {
